@@ -104,3 +104,225 @@ Proof.
       apply in_map_iff in Hk. destruct Hk as [f' [Ef Hf']]. rewrite <- Ef. apply MB. exact Hf'.
 Qed.
 End PyEqRev.
+
+(* ---------- small list facts ---------- *)
+Lemma flat_map_filter {A B} (f : A -> B) (p : A -> bool) l :
+  flat_map (fun e => if p e then [f e] else []) l = map f (filter p l).
+Proof.
+  induction l as [|x r IH]; [reflexivity|]. cbn [flat_map filter].
+  destruct (p x); cbn [map app]; rewrite IH; reflexivity.
+Qed.
+
+Lemma last_In {A} (l : list A) d : l <> [] -> In (last l d) l.
+Proof.
+  induction l as [|x [|y r] IH]; intros H; [congruence|left; reflexivity|].
+  right. apply IH. discriminate.
+Qed.
+
+Lemma is_tany_eq t : is_tany t = true -> t = TAny.
+Proof. destruct t; try discriminate. reflexivity. Qed.
+
+Lemma kls_eqb_eq a b : kls_eqb a b = true -> a = b.
+Proof.
+  destruct a, b; cbn [kls_eqb]; try discriminate; intros H.
+  - apply N.eqb_eq in H. subst. reflexivity.
+  - apply Nat.eqb_eq in H. subst. reflexivity.
+Qed.
+
+Lemma common_prefix_In a : forall b x, In x (common_prefix a b) -> In x a /\ In x b.
+Proof.
+  induction a as [|y a IH]; intros [|z b] x H; cbn [common_prefix] in H; try destruct H.
+  destruct (kls_eqb y z) eqn:E; [|destruct H]. apply kls_eqb_eq in E. subst z.
+  destruct H as [->|H]; [split; left; reflexivity|].
+  apply IH in H. destruct H. split; right; assumption.
+Qed.
+
+Lemma fold_common_prefix_In cs : forall c0 x,
+  In x (fold_left common_prefix cs c0) -> In x c0 /\ forall c, In c cs -> In x c.
+Proof.
+  induction cs as [|c cs IH]; intros c0 x H; cbn [fold_left] in H.
+  - split; [exact H|intros c []].
+  - apply IH in H. destruct H as [H1 H2]. apply common_prefix_In in H1. destruct H1 as [H1 H1'].
+    split; [exact H1|]. intros c' [<-|Hc']; [exact H1'|apply H2; exact Hc'].
+Qed.
+
+(* ---------- RemoveEmptyContainers: what an "empty" container type admits under the tight reading ---------- *)
+Section Tight.
+Variable sub : cls -> cls -> bool.
+Notation mem := (member false sub).
+
+Lemma all_any_admit_nothing v ts : forallb is_tany ts = true -> existsb (mem v) ts = false.
+Proof.
+  induction ts as [|t r IH]; [reflexivity|]. cbn [forallb existsb]. intros H.
+  apply andb_prop in H. destruct H as [H1 H2]. apply is_tany_eq in H1. subst t.
+  cbn [member orb]. apply IH. exact H2.
+Qed.
+
+Lemma forallb_false_nil {A} (l : list A) : forallb (fun _ => false) l = true -> l = [].
+Proof. destruct l; [reflexivity|discriminate]. Qed.
+
+Lemma forallb_false_nil2 {A} (f : A -> bool) (l : list A) : forallb (fun x => false && f x) l = true -> l = [].
+Proof. destruct l; [reflexivity|discriminate]. Qed.
+
+(* an empty container type (all arguments Any) admits only values that every type of the same
+   kind admits *)
+Lemma empty_same_kind e e' v :
+  is_empty e = true -> kind_of e' = kind_of e -> mem v e = true -> mem v e' = true.
+Proof.
+  intros He Hk M.
+  destruct e; cbn [is_empty] in He; try discriminate He;
+    destruct e'; cbn [kind_of] in Hk; try discriminate Hk.
+  - (* Type[Any] *) apply is_tany_eq in He. subst. cbn [member] in M. destruct v; discriminate M.
+  - (* List[Any] *) apply is_tany_eq in He. subst. cbn [member] in M |- *. destruct v; try discriminate M.
+    apply forallb_false_nil in M. subst. reflexivity.
+  - (* Set[Any] *) apply is_tany_eq in He. subst. cbn [member] in M |- *. destruct v; try discriminate M.
+    apply forallb_false_nil in M. subst. reflexivity.
+  - (* Iterator[Any] *) cbn [member] in M |- *. exact M.
+  - (* Dict[Any, Any] *) apply andb_prop in He. destruct He as [H1 H2].
+    apply is_tany_eq in H1, H2. subst. cbn [member] in M |- *.
+    destruct v; try discriminate M; apply forallb_false_nil2 in M; subst; reflexivity.
+  - (* DefaultDict[Any, Any] *) apply andb_prop in He. destruct He as [H1 H2].
+    apply is_tany_eq in H1, H2. subst. cbn [member] in M |- *.
+    destruct v; try discriminate M; apply forallb_false_nil2 in M; subst; reflexivity.
+  - (* Tuple[Any, ...Any] (non-empty) admits nothing *)
+    exfalso. destruct ts as [|t1 r]; [discriminate He|]. cbn [List.length Nat.eqb negb andb forallb] in He.
+    apply andb_prop in He. destruct He as [H1 _]. apply is_tany_eq in H1. subst.
+    destruct v; try discriminate M. rewrite member_TTuple in M. destruct es; discriminate M.
+  - exfalso. destruct ts as [|t1 r]; [discriminate He|]. cbn [List.length Nat.eqb negb andb forallb] in He.
+    apply andb_prop in He. destruct He as [H1 _]. apply is_tany_eq in H1. subst.
+    destruct v; try discriminate M. rewrite member_TTuple in M. destruct es; discriminate M.
+  - (* Generator[Any, Any, Any] *) cbn [member] in M |- *. exact M.
+  - (* Union[Any, ...] admits nothing *)
+    exfalso. apply andb_prop in He. destruct He as [_ He]. rewrite member_TUnion in M.
+    rewrite (all_any_admit_nothing v _ He) in M. discriminate M.
+Qed.
+End Tight.
+
+Section Mono.
+Variable h : hierarchy.
+Variable bt : bases_table.
+Hypothesis Hwf : wf_hier h = true.
+Hypothesis Hbt : bt_ok h bt = true.
+Notation sub := (subclass h).
+Notation rw := (rw h bt).
+
+Definition keep (ts : list ty) (e : ty) : bool := negb (is_empty e && has_nonempty_sibling e ts).
+
+Lemma rw_rme_union ts :
+  rw RRemoveEmpty (TUnion ts) =
+  match filter (keep ts) ts with
+  | [] => TUnion ts
+  | _ => union_mk (map (rw RRemoveEmpty) (filter (keep ts) ts))
+  end.
+Proof. cbn [Rewrite.rw]. rewrite flat_map_filter. reflexivity. Qed.
+
+Lemma rw_gen_cases a b c :
+  rw RGenerator (TGenerator a b c) = TIterator a \/ rw RGenerator (TGenerator a b c) = TGenerator a b c.
+Proof.
+  cbn [Rewrite.rw].
+  repeat (match goal with |- context [match ?x with _ => _ end] => destruct x end); auto.
+Qed.
+
+(* ---------- (W) rewriting preserves well-formedness ---------- *)
+Lemma dict_key_wf t : wf_ty t -> wf_ty (dict_key t).
+Proof. destruct t; cbn [dict_key wf_ty]; try exact (fun _ => I). intros [H _]. exact H. Qed.
+Lemma dict_val_wf t : wf_ty t -> wf_ty (dict_val t).
+Proof. destruct t; cbn [dict_val wf_ty]; try exact (fun _ => I). intros [_ H]. exact H. Qed.
+
+Lemma rcd_union_wf ts : Forall wf_ty ts -> wf_ty (rcd_union ts).
+Proof.
+  intros W. unfold rcd_union. destruct ts as [|t0 rest]; [exact I|].
+  destruct (forallb is_tdict (t0 :: rest) && _); [|apply wf_TUnion; exact W].
+  cbn [wf_ty]. split.
+  - apply dict_key_wf. inversion W; assumption.
+  - apply union_mk_wf. rewrite Forall_forall in *. intros x Hx. apply in_map_iff in Hx.
+    destruct Hx as [e [<- He]]. apply dict_val_wf. apply W. exact He.
+Qed.
+
+Definition homog (v : ty) (t : ty) : Prop :=
+  exists es, t = TTuple es /\ forallb (fun e => isb e v) es = true.
+
+Lemma to_tuple_scan_spec ts : forall vt r, to_tuple_scan vt ts = Some r ->
+  (forall v', vt = Some v' -> r = Some v') /\
+  (forall v, r = Some v -> Forall (homog v) ts) /\
+  (Forall wf_ty ts -> (forall v', vt = Some v' -> wf_ty v') -> forall v, r = Some v -> wf_ty v).
+Proof.
+  induction ts as [|t ts IH]; intros vt r H; cbn [to_tuple_scan] in H.
+  - injection H as <-. repeat split; auto.
+  - destruct t; try discriminate H. destruct ts0 as [|a es].
+    + destruct (IH _ _ H) as [I1 [I2 I3]]. split; [exact I1|]. split.
+      * intros v Hv. constructor; [exists []; split; reflexivity|apply I2; exact Hv].
+      * intros W Wv v Hv. inversion W; subst. eapply I3; eauto.
+    + set (v0 := match vt with Some v => v | None => a end) in *.
+      destruct (forallb (fun e => isb e v0) (a :: es)) eqn:F; [|discriminate H].
+      destruct (IH _ _ H) as [I1 [I2 I3]]. pose proof (I1 _ eq_refl) as Hr. split; [|split].
+      * intros v' ->. exact Hr.
+      * intros v Hv. constructor; [|apply I2; exact Hv].
+        rewrite Hr in Hv. injection Hv as <-. exists (a :: es). split; [reflexivity|exact F].
+      * intros W Wv v Hv. inversion W as [|? ? Wt Wts]; subst. apply (I3 Wts); [|exact Hv].
+        intros v' E. injection E as <-. unfold v0. destruct vt as [v'|]; [apply Wv; reflexivity|].
+        apply wf_TTuple in Wt. inversion Wt; assumption.
+Qed.
+
+Lemma rlu_union_wf n ts : Forall wf_ty ts -> wf_ty (rlu_union h n ts).
+Proof.
+  intros W. unfold rlu_union. destruct (Nat.leb _ _); [apply wf_TUnion; exact W|].
+  destruct (rlu_to_tuple ts) as [t|] eqn:RT.
+  - unfold rlu_to_tuple in RT. destruct (to_tuple_scan None ts) as [[v0|]|] eqn:S; try discriminate RT.
+    injection RT as <-. cbn [wf_ty].
+    destruct (to_tuple_scan_spec _ _ _ S) as [_ [_ I3]]. apply (I3 W); [discriminate|reflexivity].
+  - repeat (match goal with |- context [match ?x with _ => _ end] => destruct x end); exact I.
+Qed.
+
+Lemma msb_union_wf ts : Forall wf_ty ts -> wf_ty (msb_union bt ts).
+Proof.
+  intros W. apply wf_TUnion in W. unfold msb_union.
+  repeat (match goal with |- context [match ?x with _ => _ end] => destruct x end); exact W || exact I.
+Qed.
+
+Lemma Forall_map_wf (f : ty -> ty) ts :
+  Forall (fun t => wf_ty t -> wf_ty (f t)) ts -> Forall wf_ty ts -> Forall wf_ty (map f ts).
+Proof.
+  intros IH W. rewrite Forall_forall in *. intros x Hx. apply in_map_iff in Hx.
+  destruct Hx as [e [<- He]]. apply IH; [exact He|apply W; exact He].
+Qed.
+
+Lemma fields_map_wf (f : ty -> ty) (fs : list (string * ty)) :
+  Forall (fun fd => wf_ty (snd fd) -> wf_ty (f (snd fd))) fs -> Forall (fun fd => wf_ty (snd fd)) fs ->
+  Forall (fun fd => wf_ty (snd fd)) (map (fun fd => (fst fd, f (snd fd))) fs).
+Proof.
+  intros IH W. rewrite Forall_forall in *. intros x Hx. apply in_map_iff in Hx.
+  destruct Hx as [e [<- He]]. cbn [snd]. apply IH; [exact He|apply W; exact He].
+Qed.
+
+Lemma fields_map_fst (f : ty -> ty) (fs : list (string * ty)) :
+  map fst (map (fun fd => (fst fd, f (snd fd))) fs) = map fst fs.
+Proof. rewrite map_map. apply map_ext. reflexivity. Qed.
+
+Theorem rw_wf r t : wf_ty t -> wf_ty (rw r t).
+Proof.
+  induction t as [ | c | x IH | | x IH | x IH | x IH | k v0 IHk IHv | k v0 IHk IHv | xs IH | x IH
+                 | a1 a2 a3 IH1 IH2 IH3 | xs IH | rq op IHr IHo | s ] using ty_ind'; intros W;
+    try (destruct r; exact W).
+  - destruct r; cbn [Rewrite.rw wf_ty] in *; auto.
+  - destruct r; cbn [Rewrite.rw wf_ty] in *; auto.
+  - destruct r; cbn [Rewrite.rw wf_ty] in *; try exact W; destruct W; split; auto.
+  - destruct r; try exact W; cbn [Rewrite.rw]; apply wf_TTuple; apply wf_TTuple in W;
+      apply Forall_map_wf; assumption.
+  - destruct r; cbn [Rewrite.rw wf_ty] in *; auto.
+  - destruct r; try exact W.
+    4: { destruct (rw_gen_cases a1 a2 a3) as [E|E]; rewrite E; [|exact W]. cbn [wf_ty] in *. tauto. }
+    all: cbn [Rewrite.rw wf_ty] in *; destruct W as [? [? ?]]; repeat split; auto.
+  - pose proof W as W'. apply wf_TUnion in W'. destruct r; try exact W.
+    + rewrite rw_rme_union. destruct (filter (keep xs) xs) eqn:K; [exact W|]. rewrite <- K.
+      apply union_mk_wf. rewrite Forall_forall in *. intros x Hx. apply in_map_iff in Hx.
+      destruct Hx as [e [<- He]]. apply filter_In in He. destruct He as [He _]. apply IH; auto.
+    + cbn [Rewrite.rw]. apply rcd_union_wf. exact W'.
+    + cbn [Rewrite.rw]. apply rlu_union_wf. exact W'.
+    + cbn [Rewrite.rw]. apply union_mk_wf. apply Forall_map_wf; assumption.
+    + cbn [Rewrite.rw]. apply msb_union_wf. exact W'.
+  - destruct r; try exact W; cbn [Rewrite.rw]; apply wf_TTypedDict; apply wf_TTypedDict in W;
+      destruct W as [ND [Wr Wo]]; rewrite !fields_map_fst; (split; [exact ND|]);
+      split; apply fields_map_wf; assumption.
+Qed.
+End Mono.
